@@ -73,6 +73,20 @@ public:
     return rules;
   }
   
+  /// Look up the given rule name in this scope and then in the enclosing
+  /// scopes (a file loaded with "subninja" can use the rules of the files that
+  /// loaded it), returning null if the rule is not found.
+  Rule* lookupRule(StringRef name) const {
+    auto it = rules.find(name);
+    if (it != rules.end())
+      return it->second;
+
+    if (parent)
+      return parent->lookupRule(name);
+
+    return nullptr;
+  }
+
   /// Insert a binding into the set.
   void insertBinding(StringRef name, StringRef value) {
     entries[name] = value;
